@@ -284,7 +284,14 @@ class DataPath:
         ):
             return DataPath(*self.parts, other)
         elif isinstance(other, DataPath):
-            return DataPath(*self.parts, *other.parts)
+            # the right-hand path's DATUM_TYPE / MULTI_TYPE describe what is selected at
+            # the end of the concatenated path as well:
+            return DataPath(
+                *self.parts,
+                *other.parts,
+                datum_type=other.DATUM_TYPE.value,
+                multi_type=other.MULTI_TYPE.value,
+            )
 
     def __rtruediv__(self, other):
         return self.__class__(other) / self
